@@ -207,9 +207,15 @@ transform (const Box<Vec3<S>>& box, const Matrix44<T>& m, Box<Vec3<S>>& result)
 
     if (m[0][3] == 0 && m[1][3] == 0 && m[2][3] == 0 && m[3][3] == 1)
     {
+        //
+        // Accumulate into a local box: result may be the same object as box.
+        //
+
+        Box<Vec3<S>> newBox;
+
         for (int i = 0; i < 3; i++)
         {
-            result.min[i] = result.max[i] = (S) m[3][i];
+            newBox.min[i] = newBox.max[i] = (S) m[3][i];
 
             for (int j = 0; j < 3; j++)
             {
@@ -220,17 +226,18 @@ transform (const Box<Vec3<S>>& box, const Matrix44<T>& m, Box<Vec3<S>>& result)
 
                 if (a < b)
                 {
-                    result.min[i] += a;
-                    result.max[i] += b;
+                    newBox.min[i] += a;
+                    newBox.max[i] += b;
                 }
                 else
                 {
-                    result.min[i] += b;
-                    result.max[i] += a;
+                    newBox.min[i] += b;
+                    newBox.max[i] += a;
                 }
             }
         }
 
+        result = newBox;
         return;
     }
 
@@ -334,9 +341,15 @@ affineTransform (
         return;
     }
 
+    //
+    // Accumulate into a local box: result may be the same object as box.
+    //
+
+    Box<Vec3<S>> newBox;
+
     for (int i = 0; i < 3; i++)
     {
-        result.min[i] = result.max[i] = (S) m[3][i];
+        newBox.min[i] = newBox.max[i] = (S) m[3][i];
 
         for (int j = 0; j < 3; j++)
         {
@@ -347,16 +360,18 @@ affineTransform (
 
             if (a < b)
             {
-                result.min[i] += a;
-                result.max[i] += b;
+                newBox.min[i] += a;
+                newBox.max[i] += b;
             }
             else
             {
-                result.min[i] += b;
-                result.max[i] += a;
+                newBox.min[i] += b;
+                newBox.max[i] += a;
             }
         }
     }
+
+    result = newBox;
 }
 
 ///
